@@ -149,6 +149,14 @@ def run_config(ctx, rnd, tag, cfg, M0, mf, cases, nev, tree=None):
     config2 = ConfigLoader(c2); amp2 = config2.get_amplitude(); amp2.set_params(pars)
     data2 = config2.data.cal_angle(p4); data2["weight"] = w
     extra[("tf_function+no_id_cached", nev)] = {kk: float(v) for kk, v in fit_fractions(amp2, data2, batch=nev)[0].items()}
+    # an ALREADY SPLIT sample (list of batches, batch=None: the calling convention of the tutorials): the weights travel with the pieces
+    if nev >= 2:
+        from tf_pwa.data import data_split
+        from tf_pwa.fitfractions import cal_fitfractions
+        pieces = list(data_split(data, max(1, nev - 1)))
+        extra[("presplit", max(1, nev - 1))] = {kk: float(v) for kk, v in cal_fitfractions(amp, pieces, batch=None)[0].items()}
+        extra[("presplit_ff", max(1, nev - 1))] = {kk: float(v) for kk, v in fit_fractions(amp, pieces, batch=None)[0].items()}
+        ctx.count("ff_presplit_sample")
     # history: a sub-selection is ACTIVE when the fractions of the full model are requested (res=None): they refer to all chains
     # (and the selection is restored afterwards: C17)
     if nch >= 2:
@@ -187,6 +195,53 @@ def run_config(ctx, rnd, tag, cfg, M0, mf, cases, nev, tree=None):
     return meta0
 
 
+def known_reproducers(ctx):
+    """fixed reproducers of the two OPEN findings of C03 (excluded from the regular stream: every regular config gives every
+    particle a mass, and the sum-rule case is only emitted for groups with one resonance per chain)"""
+    from tf_pwa.config_loader import ConfigLoader
+    from tf_pwa.applications import fit_fractions
+    # (1) a final particle WITHOUT a mass: its mass becomes the mean of the first batch ever evaluated, so the fit fractions
+    #     depend on the batch split
+    mf = {"B": 0.5, "C": 0.3, "D": 0.13957}; M0 = 2.0
+    res = {"R_BC": {"pair": "R_BC", "J": 1, "P": -1, "mass": 1.1, "width": 0.15}, "R_CD": {"pair": "R_CD", "J": 0, "P": 1, "mass": 0.9, "width": 0.2}}
+    cfg = ampkit.three_body_config(M0, mf, res)
+    del cfg["particle"]["$finals"]["D"]["mass"]
+    half = ampkit.gen_events(M0, mf, 20, 11)
+    mf2 = dict(mf, D=0.30)
+    other = ampkit.gen_events(M0, mf2, 20, 12)
+    p4 = {k: np.concatenate([half[k], other[k]]) for k in half}
+    vals = []
+    for b in (40, 20):
+        import warnings
+        with warnings.catch_warnings():
+            warnings.simplefilter("ignore")
+            c = ConfigLoader(json_copy(cfg)); amp = c.get_amplitude(); ampkit.random_params(amp, random.Random(3))
+            vals.append({str(k): float(v) for k, v in fit_fractions(amp, c.data.cal_angle(p4), batch=b)[0].items()})
+    dev = max(abs(vals[0][k] - vals[1][k]) for k in vals[0])
+    ctx.count("known_reproducer:no_mass_batch_mean:%s" % ("fails" if dev > 1e-9 else "passes"))
+    if dev > 1e-9:
+        ctx.fail("fit_fraction", "known_no_mass", "fit fractions depend on the batch split: max difference %.3g between batch 40 and 20" % dev,
+                 site="HelicityDecay._get_particle_mass for a particle without mass (tf_pwa/amp/core.py)", fingerprint="no_mass:first_batch_mean",
+                 failing_input={"config": cfg, "events": {k: v.tolist() for k, v in p4.items()}, "fractions_batch_40": vals[0], "fractions_batch_20": vals[1]})
+    # (2) two listed resonances in ONE chain (cascade): single + pairwise fractions do not add up to one
+    from props.c01 import four_body
+    cfg4, M04, mf4, tree = four_body(random.Random(1))
+    c = ConfigLoader(cfg4); amp = c.get_amplitude(); ampkit.random_params(amp, random.Random(5))
+    d4 = c.data.cal_angle(ampkit.gen_tree_events(tree, mf4, M04, 30, 17))
+    ff = {str(k): float(v) for k, v in fit_fractions(amp, d4, batch=30)[0].items()}
+    tot = sum(ff.values())
+    ctx.count("known_reproducer:sum_rule_multi_resonance_chain:%s" % ("fails" if abs(tot - 1) > 1e-9 else "passes"))
+    if abs(tot - 1) > 1e-9:
+        ctx.fail("sum_rule", "known_multi_res_chain", "single + pairwise fit fractions add up to %.6f for a group whose chains contain two resonances each" % tot,
+                 site="cal_fitfractions with the default res = amp.res on chains with several resonances", fingerprint="sum_rule:multi_resonance_chain",
+                 failing_input={"config": cfg4, "fractions": ff, "sum": tot})
+
+
+def json_copy(x):
+    import json
+    return json.loads(json.dumps(x))
+
+
 def search(ctx, fails):
     """direct tests of the property on the implementation (no model): partial sums, sum rule, batch drift"""
     from tf_pwa.config_loader import ConfigLoader
@@ -221,6 +276,27 @@ def search(ctx, fails):
                     if abs(float(new[k]) - float(ref[k])) > 1e-9:
                         return {"config": m["config"], "params": m["params"], "events": m["events"], "weights": m.get("weights"),
                                 "violation": "fit_fractions(method='new', batch=%d) differs from the un-batched value" % b, "key": str(k), "new": float(new[k]), "reference": float(ref[k])}
+            # history: the same request while a sub-selection is active, and a pre-split sample
+            if len(amp.decay_group.chains) >= 2:
+                first = [str(x) for x in amp.res][0]
+                with amp.temp_used_res([first]):
+                    sel_old = {str(k): float(v) for k, v in fit_fractions(amp, data, batch=nev)[0].items()}
+                    sel_new = {str(k): float(v) for k, v in fit_fractions(amp, data, batch=nev, method="new", res=list(amp.res)).get_frac_grad(sum_diag=False)[0].items()}
+                for how, vals_ in (("default method", sel_old), ("method='new'", sel_new)):
+                    for k in vals_:
+                        if abs(vals_[k] - float(ref[[kk for kk in ref if str(kk) == k][0]])) > 1e-9:
+                            return {"config": m["config"], "params": m["params"], "events": m["events"], "weights": m.get("weights"),
+                                    "violation": "fit fractions of the full model requested while the selection [%s] is active (%s) differ from those without a selection" % (first, how),
+                                    "key": k, "with_selection_active": vals_[k], "reference": float(ref[[kk for kk in ref if str(kk) == k][0]])}
+            if nev >= 2:
+                from tf_pwa.data import data_split
+                from tf_pwa.fitfractions import cal_fitfractions
+                pre = {str(k): float(v) for k, v in cal_fitfractions(amp, list(data_split(data, max(1, nev - 1))), batch=None)[0].items()}
+                for k in pre:
+                    if abs(pre[k] - float(ref[[kk for kk in ref if str(kk) == k][0]])) > 1e-9:
+                        return {"config": m["config"], "params": m["params"], "events": m["events"], "weights": m.get("weights"),
+                                "violation": "fit fractions of a pre-split sample (list of batches, batch=None) differ from those of the whole sample", "key": k,
+                                "presplit": pre[k], "reference": float(ref[[kk for kk in ref if str(kk) == k][0]])}
             vals = {}
             for b in (1, max(1, nev - 1), nev, nev + 3):
                 ff, _ = fit_fractions(amp, data, batch=b)
@@ -250,6 +326,7 @@ def run(ctx):
     for tag, cfg, M0, mf, tree in configs(rnd, ctx.tier):
         meta = run_config(ctx, rnd, tag, cfg, M0, mf, cases, 3 if ctx.tier == "quick" else 6, tree=tree)
         ctx.sample({"config_tag": tag, "decay": cfg["decay"], "particle": cfg["particle"]}, cap=3)
+    known_reproducers(ctx)
     for c in cases[:: max(1, len(cases) // 3)]:
         ctx.sample({"case": c[0], "goal": c[1][:400]})
     res = common.coq_cases(ctx, "c03", HEADER, [c[:3] for c in cases], per_file=6, case_timeout=120)
